@@ -216,6 +216,8 @@ def derived_job(args):
             elif kind == "array":
                 elems = [Value.cast(g.expr(rng.randint(0, 2))) for _e in range(rng.randint(1, 4))]
                 idx = g.small_unsigned(1, 2)
+                if rng.random() < 0.35 and len(idx) >= 1:
+                    idx = idx.as_signed()          # a signed index reaches only the non-negative half of its range
                 e, op, ops = Value.cast(Array(elems)[idx]), "(array)", [idx] + elems
             elif kind == "index":
                 if n == 0:
@@ -358,9 +360,60 @@ def run_jobs(chk, fn, arglist, path, workers=None):
     return njobs
 
 
+def malformed_stream(chk):
+    """the other direction of `Expr.wf`: trees the model calls ill-formed must be refused by the real constructors
+    (the main streams only build what the constructors accept and require wf = true for it)"""
+    from amaranth.hdl import Signal, signed, unsigned
+    from amaranth.hdl import _ast as A
+    import warnings
+    ctx = "(ctx (4 u) (3 s) (0 u) (2 u))"
+    a, sg, z, o = Signal(4, name="a"), Signal(signed(3), name="s"), Signal(0, name="z"), Signal(2, name="o")
+    cases = [
+        ("as_signed of a zero-width value", lambda: z.as_signed(), "(s (sig 2))"),
+        ("left shift by a signed amount", lambda: a << sg, "(<< (sig 0) (sig 1))"),
+        ("right shift by a signed amount", lambda: a >> sg, "(>> (sig 0) (sig 1))"),
+        ("slice with start > stop", lambda: A.Slice(a, 3, 2), "(slice (sig 0) 3 2)"),
+        ("slice beyond the width", lambda: A.Slice(a, 0, 9), "(slice (sig 0) 0 9)"),
+        ("slice of a slice beyond its width", lambda: A.Slice(A.Slice(a, 1, 3), 0, 3), "(slice (slice (sig 0) 1 3) 0 3)"),
+        ("part-select with a signed offset", lambda: a.bit_select(sg, 2), "(part (sig 0) (sig 1) 2 1)"),
+        ("part-select with stride 0", lambda: A.Part(a, o, 2, 0), "(part (sig 0) (sig 3) 2 0)"),
+        ("word_select of width 0", lambda: a.word_select(o, 0), "(part (sig 0) (sig 3) 0 0)"),
+        ("switch pattern of the wrong width", lambda: A.SwitchValue(a, [("01", a)]), '(sw (sig 0) (("01") (sig 0)))'),
+        ("nested: ill-formed operand of a well-formed operator", lambda: (a << sg) + 1, "(+ (<< (sig 0) (sig 1)) (c 1 1 u))"),
+        ("a signal that does not exist", None, "(sig 7)"),
+    ]
+    reqs = [f"(eval {ctx} {sx} (env 0 0 0 0))" for _w, _f, sx in cases]
+    resps = chk.driver.ask(reqs)
+    for (what, build, sx), req, resp in zip(cases, reqs, resps):
+        chk.count(1)
+        chk.hist("malformed", what, 1)
+        parsed = parse_eval(resp)
+        if parsed is None:
+            chk.not_shown("driver could not judge an ill-formed expression", {"request": req, "response": resp[:200]})
+            continue
+        _shape, wf, _rows = parsed
+        raised = None
+        if build is not None:
+            try:
+                with warnings.catch_warnings():
+                    warnings.simplefilter("ignore")
+                    build()
+            except Exception as e:
+                raised = errkind(e)
+        else:
+            raised = "n/a"
+        if wf:
+            chk.not_shown(f"the model calls an expression well-formed that the constructors refuse ({what})",
+                          {"request": req, "constructor": raised})
+        elif raised is None:
+            chk.violation(f"the constructors accept an expression without a meaning ({what}): the model has no value for it",
+                          {"request": req, "kind": "malformed-accepted", "classes": []})
+
+
 def campaign(chk, path):
     tier = chk.tier
     rng = chk.rng
+    malformed_stream(chk)
     # exhaustive depth-1 table over small shapes
     maxw = 3 if tier == "quick" else 4
     shapes = [(w, False) for w in range(0, maxw + 1)] + [(w, True) for w in range(1, maxw + 1)]
